@@ -151,7 +151,7 @@ Qed.
 (* what the control state remembers about the generation it read *)
 Definition pc_ok (s : shared) (o : op) (p : pc) : Prop :=
   match o, p with
-  | OCas _ e _ _, PCGuard _ _ g => held_ok s g /\ val_eqb (g_val g) e = true
+  | OCas _ e _ _, PCGuard _ _ g _ => held_ok s g /\ val_eqb (g_val g) e = true
   | OIncr _ d _, PNGuard _ g nv _ _ => held_ok s g /\ exists z, g_val g = VC z /\ nv = sat_add_i64 z d
   | OPatch _ pj _, PPGuard _ _ _ r nv => held_ok s r /\ exists l, g_val r = VJ l /\ nv = VJ (l ++ [pj])
   | _, _ => True
@@ -333,7 +333,7 @@ Proof.
               | None => done s (OCas k e n tso) 0 false (RBool false) false
               | Some g =>
                   if val_eqb (g_val g) e
-                  then let '(ts, ex, s') := resolve s k tso in goto s' (PCGuard ts ex g)
+                  then let '(ts, ex, s') := resolve s k tso in goto s' (PCGuard ts ex g (nget k (ver s)))
                   else done s (OCas k e n tso) 0 false (RBool false) false
               end = (s1, r1, c1) -> step_post s (OCas k e n tso) s1 r1 c1).
     { intros s1 r1 c1 H. destruct (aget k (tbl s)) as [g|] eqn:Hg.
